@@ -2,6 +2,7 @@ import Audit.Tool
 import Uds.Props.C09
 import Uds.Props.C09Call
 import Uds.Props.C09Hist
+import Uds.Props.C09Block
 import Uds.Props.CallUnify
 #audit Uds.Props.C09
 #audit Uds.Props.CallUnify
